@@ -60,7 +60,7 @@ def attr_sets(v1, q1, v2, q2, v3, q3):
 
 
 def gen(tier, rng, boost=1):
-    n = (700 if tier == "quick" else 9000) * boost
+    n = (5000 if tier == "quick" else 60000) * boost
     T = [(0, 1), (1, 2), (0, 2)]
     # CssString equality corner: raw text when the quote kinds agree, unquoted text otherwise
     for (v1, q1, v2, q2, v3, q3) in ((r"\-", "d", "-", "s", "-", "d"), (r"\-", "s", "-", "d", "-", "s"),
